@@ -56,7 +56,8 @@ def mirror_inductive(timeout=900):
 
 def mirror_tlaps(timeout=900):
     """TLAPS: Mirror /\\ DefKeyed inductive for ARBITRARY carrier sets (spec/MirrorIndProofs.tla).  -> dict for the evidence file"""
-    files = [os.path.join(C.SPEC, "MirrorInd.tla"), os.path.join(C.SPEC, "MirrorIndProofs.tla")]
+    # the proof module lives in spec/tlaps/ (it EXTENDS TLAPS, which only tlapm's library provides: SANY / TLC never see it)
+    files = [os.path.join(C.SPEC, "MirrorInd.tla"), os.path.join(C.SPEC, "tlaps", "MirrorIndProofs.tla")]
     h = hashlib.sha256(b"".join(open(f, "rb").read() for f in files)).hexdigest()[:20]
     cdir = os.path.join(C.BUILD, "tlc-cache")
     os.makedirs(cdir, exist_ok=True)
